@@ -511,6 +511,10 @@ def _to_float_bits(v, src, dst):
     srt = _FPS[dst.itemsize]
     if z3.is_bool(v):
         return z3.If(v, _float_bits(1.0, dst), _float_bits(0.0, dst))
+    if z3.is_int(v):
+        sv = e.simp(v)
+        if z3.is_int_value(sv):
+            return _round_float(float(sv.as_long()), dst)        # decided on this path: a concrete float
     if src.kind == "f":
         r = z3.fpFPToFP(z3.RNE(), _to_fp(v, src), srt)
     elif z3.is_bv(v) and _is_bits_term(v):
